@@ -240,6 +240,13 @@ func (e *kvElection) Start(ctx context.Context) error {
 		}
 	}
 
+	// The previous run may have ended by cancellation of its context only a
+	// moment ago, before its watcher goroutine (below) got round to giving up
+	// the claim: that is done here then, before the new run starts.
+	if e.ctx != nil && e.isLeader.Load() && e.becomeFollowerLocked() {
+		go e.runOnDemote("context_cancelled")
+	}
+
 	e.ctx, e.cancel = context.WithCancel(ctx)
 	ctxCopy := e.ctx
 	e.ctxForLog.Store(&ctxCopy)
